@@ -222,7 +222,8 @@ func runC05(c *core.Ctx) {
 		if cs.Blocks == 1 && (len(cs.Acts) == 0 || cs.Acts[0].K == "p-cancel") && len(cs.FailSend) == 0 {
 			b = bound + 1 // short runs: one more deviation is affordable
 		}
-		c.Explore(core.ExploreOpts{MaxBound: b, Cost: core.Deviation, Label: cs, NoShard: true, MaxExecs: 60000}, func(cfg vsched.Config) core.Exec {
+		// real time may pass at any moment: one-shot timers (the 100 ms grace wait after a failed send) may fire early
+		c.Explore(core.ExploreOpts{MaxBound: b, Cost: core.Deviation, Label: cs, NoShard: true, MaxExecs: 60000, Cfg: vsched.Config{EarlyTimers: len(cs.FailSend) > 0}}, func(cfg vsched.Config) core.Exec {
 			o, s := rspRun(cfg, cs)
 			return core.Exec{Sched: s, Outcome: "schedule-level hook=" + cs.Hook + " " + c05Outcome(o), Viol: c05Judge(cs, o)}
 		})
@@ -230,6 +231,13 @@ func runC05(c *core.Ctx) {
 			o, s := rspRun(cfg, cs)
 			return core.Exec{Sched: s, Outcome: "hook=" + cs.Hook + " " + c05Outcome(o), Viol: c05Judge(cs, o)}
 		})
+		if len(cs.FailSend) > 0 {
+			// a slow thread while the grace timer fires as early as it can
+			c.ExploreSlowEarly(cs, func(cfg vsched.Config) core.Exec {
+				o, s := rspRun(cfg, cs)
+				return core.Exec{Sched: s, Outcome: "hook=" + cs.Hook + " " + c05Outcome(o), Viol: c05Judge(cs, o)}
+			})
+		}
 	}
 }
 
